@@ -468,7 +468,7 @@ fn run_c16(ctx: &Ctx) {
     let mut words = Words { seen: BTreeSet::new() };
     let mut notes: BTreeMap<String, u64> = BTreeMap::new();
     let mut total = 0u64;
-    let nrand: u64 = if ctx.n > 0 { ctx.n } else if ctx.thorough { 1_500_000 } else { 60_000 };
+    let nrand: u64 = if ctx.n > 0 { ctx.n } else if ctx.thorough { 6_000_000 } else { 60_000 };
     let cases: [(&str, bool, u32); 3] = [("a32", false, 0), ("t32-aligned", true, 0), ("t32-2mod4", true, 2)];
     let mut idx = 0u64;
     for (name, thumb, rem) in cases {
